@@ -127,3 +127,30 @@ Definition recovery_cert (g : grammar) (d : dmap) : bool :=
     graph_ok pg (rid_of sb) nns && dom_fixed pg (rid_of sb) d && nodup_b nns
   | None => true
   end.
+
+(* the start node lies on every path, so everything that may follow the start body (the end-of-input markers)
+   is in the recovery set of every loop/option unless it can start or follow the loop body *)
+Lemma start_on_every_path pg start n l : reach pg start n l -> In start l.
+Proof. induction 1 as [|v u l Hr IH Hu]; [left; reflexivity|right; assumption]. Qed.
+
+Theorem end_of_input_recovered g fi fo used fuel order rc d pg sb :
+  body_of g (g_start g) = Some sb ->
+  calc_recovery g fi fo used fuel order = Some (rc, d, pg) ->
+  let start := rid_of sb in
+  let nns := order (map fst pg) in
+  graph_ok pg start nns = true -> dom_fixed pg start d = true -> nodup_b nns = true ->
+  forall n op, In n nns -> loop_body g n = Some op ->
+  forall s, mem s (get fo start) = true ->
+    mem s (get rc n) = true \/ mem s (get fi (rid_of op)) = true \/ mem s (get fo (rid_of op)) = true.
+Proof.
+  intros Hb H start nns Hg Hf Hnd n op Hn Hl s Hs.
+  destruct (calc_recovery_spec g fi fo used fuel order rc d pg sb Hb H Hg Hf Hnd) as (Hdom & Hrec).
+  destruct (mem s (get fi (rid_of op))) eqn:E1; [auto|].
+  destruct (mem s (get fo (rid_of op))) eqn:E2; [auto|].
+  left. apply (Hrec n op Hn Hl s). split; [|auto].
+  exists start. split; [|exact Hs].
+  apply (Hdom n start).
+  - apply Dominators.In_nadd. right. assumption.
+  - apply Dominators.In_nadd. left. reflexivity.
+  - intros l Hr. eapply start_on_every_path. eassumption.
+Qed.
